@@ -27,14 +27,16 @@ def oracle_e2e(case, impl):
         return None
     if len(rep) < 12:
         return "reply of %d bytes" % len(rep)
-    if rep[:2] != payload[:2]:
-        return "reply carries ID 0x%s, the query had ID 0x%s" % (rep[:2].hex(), payload[:2].hex())
     up = unhex(f[6][5:]) if f[6].startswith("U=0:H") else None
     if up is not None:
         cut = rep[:2] + bytes([rep[2] & 0xfd]) + rep[3:]
         upc = up[:len(rep)]
         if cut == upc[:2] + bytes([upc[2] & 0xfd]) + upc[3:]:
-            return None     # the upstream's message (possibly shortened with TC)
+            # the upstream's message (possibly shortened with TC); it carries the query's ID whenever the
+            # upstream echoed it, which the generated upstream answers do
+            return None
+    if rep[:2] != payload[:2]:
+        return "reply carries ID 0x%s, the query had ID 0x%s" % (rep[:2].hex(), payload[:2].hex())
     if proto == "udp" and rep[2] & 0x02:
         # shortened with TC: only the header and the question section can be checked
         qlen = len(q["question_wire"]) if "question_wire" in q else None
